@@ -1,4 +1,4 @@
-//! C02 — flow-control safety, credit-accounting kernels (`chmux/credit.rs`).
+//! C02 / C03 / C06 / C11 — credit-accounting kernels (`chmux/credit.rs`).
 //!
 //! Conservation law per port direction (B = advertised buffer):
 //!   pool + assigned + wire + used + to_return + in_flight_credit_frames = B.
@@ -6,12 +6,14 @@
 //! pre-state and checks that exactly that amount moved.
 
 use super::util::*;
+use crate::chmux::SendError;
 use std::convert::Infallible;
+use std::task::Poll;
 
 /// @prop C02
 /// @tier quick
 /// @fn chmux::credit::ChannelCreditMonitor::use_credits
-/// @bounds used, limit, credits: full u32 (used <= limit)
+/// @bounds used, limit, credits: full u32 (invariant used <= limit)
 /// accepts iff used + c <= limit (no wrap); then used' = used + c, else state unchanged + Protocol error
 #[kani::proof]
 #[kani::unwind(2)]
@@ -44,4 +46,397 @@ fn c02_use_credits_bound() {
     kani::cover!(res.is_ok() && c > 0, "accepting path reached");
     kani::cover!(res.is_err(), "rejecting path reached");
     std::mem::forget((mon, ret, res));
+}
+
+/// Return threshold as documented: half the buffer, or 1 for buffers below 8.
+fn ref_threshold(limit: u32) -> u32 {
+    if limit >= 8 { limit / 2 } else { 1 }
+}
+
+/// @prop C02 C03
+/// @tier quick
+/// @fn chmux::credit::ChannelCreditReturner::start_return
+/// @bounds limit (>= 4), used, to_return, credit: full u32 under the invariant used + to_return <= limit, credit <= used, to_return < threshold(limit); remote_port full u32; event queue of capacity 1 with room
+/// @outside event queues longer than 1 (the function calls try_send once); PortNumber::drop stubbed (no port number exists in this harness)
+/// consumed credit moves used -> to_return; a ReturnCredits event carries exactly everything that left to_return
+/// (never more than was consumed); afterwards to_return < threshold, hence an idle receiver leaves the sender >= 4 credits
+#[kani::proof]
+#[kani::unwind(3)]
+#[kani::stub(std::hash::RandomState::new, tokio::maps::map_random_state)]
+#[kani::stub(std::collections::HashMap::insert, tokio::maps::hm_insert)]
+#[kani::stub(std::collections::HashMap::get, tokio::maps::MapModel::get)]
+#[kani::stub(std::collections::HashMap::get_mut, tokio::maps::MapModel::get_mut)]
+#[kani::stub(std::collections::HashMap::contains_key, tokio::maps::MapModel::contains_key)]
+#[kani::stub(std::collections::HashMap::remove, tokio::maps::MapModel::remove)]
+#[kani::stub(std::collections::HashMap::remove_entry, tokio::maps::MapModel::remove_entry)]
+#[kani::stub(std::collections::HashMap::len, tokio::maps::hm_len)]
+#[kani::stub(std::collections::HashMap::is_empty, tokio::maps::hm_is_empty)]
+#[kani::stub(std::collections::HashSet::insert, tokio::maps::hs_insert)]
+#[kani::stub(std::collections::HashSet::contains, tokio::maps::SetModel::contains)]
+#[kani::stub(std::collections::HashSet::remove, tokio::maps::SetModel::remove)]
+#[kani::stub(std::collections::HashSet::len, tokio::maps::hs_len)]
+#[kani::stub(std::collections::HashSet::is_empty, tokio::maps::hs_is_empty)]
+#[kani::stub(<crate::chmux::PortNumber as std::ops::Drop>::drop, noop_port_number_drop)]
+#[kani::stub(alloc::fmt::format, empty_format)]
+fn c02_start_return_conservation() {
+    start_return_case(false);
+}
+
+/// @prop C02 C03
+/// @tier quick
+/// @fn chmux::credit::ChannelCreditReturner::start_return
+/// @fn chmux::credit::ChannelCreditReturner::return_flush
+/// @bounds as c02_start_return_conservation, but the event queue (capacity 1) is full when credits become due
+/// @outside PortNumber::drop stubbed (no port number exists in this harness)
+/// a due return that finds the queue full is parked in a deferred future with exactly the due amount; return_flush delivers it once there is room
+#[kani::proof]
+#[kani::unwind(3)]
+#[kani::stub(std::hash::RandomState::new, tokio::maps::map_random_state)]
+#[kani::stub(std::collections::HashMap::insert, tokio::maps::hm_insert)]
+#[kani::stub(std::collections::HashMap::get, tokio::maps::MapModel::get)]
+#[kani::stub(std::collections::HashMap::get_mut, tokio::maps::MapModel::get_mut)]
+#[kani::stub(std::collections::HashMap::contains_key, tokio::maps::MapModel::contains_key)]
+#[kani::stub(std::collections::HashMap::remove, tokio::maps::MapModel::remove)]
+#[kani::stub(std::collections::HashMap::remove_entry, tokio::maps::MapModel::remove_entry)]
+#[kani::stub(std::collections::HashMap::len, tokio::maps::hm_len)]
+#[kani::stub(std::collections::HashMap::is_empty, tokio::maps::hm_is_empty)]
+#[kani::stub(std::collections::HashSet::insert, tokio::maps::hs_insert)]
+#[kani::stub(std::collections::HashSet::contains, tokio::maps::SetModel::contains)]
+#[kani::stub(std::collections::HashSet::remove, tokio::maps::SetModel::remove)]
+#[kani::stub(std::collections::HashSet::len, tokio::maps::hs_len)]
+#[kani::stub(std::collections::HashSet::is_empty, tokio::maps::hs_is_empty)]
+#[kani::stub(<crate::chmux::PortNumber as std::ops::Drop>::drop, noop_port_number_drop)]
+#[kani::stub(alloc::fmt::format, empty_format)]
+fn c02_start_return_deferred() {
+    start_return_case(true);
+}
+
+fn start_return_case(queue_full: bool) {
+    let limit: u32 = kani::any();
+    let used: u32 = kani::any();
+    let to_return: u32 = kani::any();
+    let c: u32 = kani::any();
+    let remote_port: u32 = kani::any();
+    kani::assume(limit >= 4);
+    kani::assume((used as u64) + (to_return as u64) <= limit as u64);
+    kani::assume(c <= used);
+    kani::assume(to_return < ref_threshold(limit));
+
+    let (mon, mut ret) = hc::monitor_pair(limit);
+    hc::monitor_set_used(&mon, used);
+    hc::returner_set_to_return(&mut ret, to_return);
+    let (tx, mut rx) = tokio::sync::mpsc::channel(1);
+    if queue_full {
+        let dummy = hx::port_evt(hx::PortEvtView::SenderDropped { local_port: 0 });
+        assert!(tx.try_send(dummy).is_ok());
+    }
+
+    hc::start_return(&mut ret, hc::used_credit(c), remote_port, &tx);
+
+    let (used2, _) = hc::monitor_state(&mon);
+    let (to_return2, deferred) = hc::returner_state(&ret);
+    assert!(used2 == used - c);
+    let total = to_return + c;
+    let emit = total >= ref_threshold(limit);
+    if queue_full {
+        // the dummy comes first
+        assert!(matches!(pop_evt(&mut rx), Evt::SenderDropped { local_port: 0 }));
+    }
+    if emit {
+        assert!(to_return2 == 0);
+        assert!(deferred == queue_full);
+        if deferred {
+            // nothing was queued yet; the deferred future sends it once there is room
+            assert!(matches!(pop_evt(&mut rx), Evt::Empty));
+            let mut flush = Slot::new(hc::return_flush(&mut ret));
+            assert!(flush.poll().is_ready());
+        }
+        match pop_evt(&mut rx) {
+            Evt::ReturnCredits { remote_port: rp, credits } => {
+                assert!(rp == remote_port);
+                assert!(credits == total);
+                // conservation: what left `used`+`to_return` is exactly what was emitted
+                assert!((used2 as u64) + (to_return2 as u64) + (credits as u64) == (used as u64) + (to_return as u64));
+            }
+            other => {
+                std::mem::forget(other);
+                panic!("ReturnCredits event expected")
+            }
+        }
+        assert!(matches!(pop_evt(&mut rx), Evt::Empty));
+        kani::cover!(true, "return path reached");
+    } else {
+        assert!(to_return2 == total);
+        assert!(!deferred);
+        assert!(matches!(pop_evt(&mut rx), Evt::Empty));
+        kani::cover!(c > 0, "accumulating path reached");
+    }
+    // C03 threshold lemma: the invariant is re-established and leaves the sender at least 4 credits
+    assert!(to_return2 < ref_threshold(limit));
+    assert!(limit - to_return2 >= 4);
+    std::mem::forget((mon, ret, tx, rx));
+}
+
+/// @prop C02 C03
+/// @tier quick
+/// @fn chmux::credit::CreditProvider::provide
+/// @bounds pool credits, granted credits: full u32; closed flag: any; 0..=2 registered waiters
+/// frame -> pool: pool' = pool + c, overflow is a Protocol error with the pool untouched; every registered waiter is woken and the list is empty (no lost wake-up)
+#[kani::proof]
+#[kani::unwind(4)]
+#[kani::stub(alloc::fmt::format, empty_format)]
+fn c02_provide_adds_and_wakes() {
+    let pool: u32 = kani::any();
+    let c: u32 = kani::any();
+    let closed: Option<bool> = kani::any();
+    let waiters: u8 = kani::any();
+    kani::assume(waiters <= 2);
+    let (prov, user) = hc::send_pair(0);
+    hc::provider_set(&prov, pool, closed);
+    let mut w0 = if waiters >= 1 { Some(hc::provider_add_waiter(&prov)) } else { None };
+    let mut w1 = if waiters >= 2 { Some(hc::provider_add_waiter(&prov)) } else { None };
+
+    let res = hc::provide::<Infallible, Infallible>(&prov, c);
+    let (pool2, closed2, waiting2) = hc::provider_state(&prov);
+    assert!(closed2 == closed);
+    match &res {
+        Ok(()) => {
+            assert!((pool as u64) + (c as u64) <= u32::MAX as u64);
+            assert!(pool2 == pool + c);
+            assert!(waiting2 == 0);
+            if let Some(w) = &mut w0 {
+                assert!(w.try_recv() == Ok(()));
+            }
+            if let Some(w) = &mut w1 {
+                assert!(w.try_recv() == Ok(()));
+            }
+            kani::cover!(waiters == 2, "two waiters woken");
+        }
+        Err(e) => {
+            assert!((pool as u64) + (c as u64) > u32::MAX as u64);
+            assert!(is_protocol(e));
+            assert!(pool2 == pool);
+            kani::cover!(true, "overflow path reached");
+        }
+    }
+    std::mem::forget((prov, user, w0, w1, res));
+}
+
+/// @prop C03 C11
+/// @tier quick
+/// @fn chmux::credit::CreditProvider::close
+/// @bounds pool: full u32; gracefully: any; 0..=2 registered waiters
+/// close records the classification, keeps the pool and wakes every waiter
+#[kani::proof]
+#[kani::unwind(4)]
+fn c03_close_wakes() {
+    let pool: u32 = kani::any();
+    let gracefully: bool = kani::any();
+    let waiters: u8 = kani::any();
+    kani::assume(waiters <= 2);
+    let (prov, user) = hc::send_pair(pool);
+    let mut w0 = if waiters >= 1 { Some(hc::provider_add_waiter(&prov)) } else { None };
+    let mut w1 = if waiters >= 2 { Some(hc::provider_add_waiter(&prov)) } else { None };
+    hc::close(&prov, gracefully);
+    let (pool2, closed2, waiting2) = hc::provider_state(&prov);
+    assert!(pool2 == pool);
+    assert!(closed2 == Some(gracefully));
+    assert!(waiting2 == 0);
+    if let Some(w) = &mut w0 {
+        assert!(w.try_recv() == Ok(()));
+    }
+    if let Some(w) = &mut w1 {
+        assert!(w.try_recv() == Ok(()));
+    }
+    kani::cover!(waiters == 2 && gracefully, "two waiters woken on graceful close");
+    std::mem::forget((prov, user, w0, w1));
+}
+
+/// Reference classification of a credit request against a closed/open pool.
+fn ref_closed_error(closed: Option<bool>, override_graceful: bool) -> Option<bool> {
+    match closed {
+        Some(g) if !override_graceful || !g => Some(g),
+        _ => None,
+    }
+}
+
+/// @prop C02 C06 C11
+/// @tier quick
+/// @fn chmux::credit::CreditUser::try_request
+/// @bounds pool, req (>= 1): full u32; closed: None/Some(true)/Some(false); override flag: any; provider alive or dropped
+/// pool -> assigned: grants exactly req iff pool >= req, never more than the pool; closed pools yield the documented Closed{gracefully} error unless a graceful close is overridden; a dead dispatcher yields ChMux
+#[kani::proof]
+#[kani::unwind(2)]
+fn c02_try_request_table() {
+    let pool: u32 = kani::any();
+    let req: u32 = kani::any();
+    let closed: Option<bool> = kani::any();
+    let over: bool = kani::any();
+    let alive: bool = kani::any();
+    kani::assume(req >= 1);
+    let (prov, mut user) = hc::send_pair(0);
+    hc::provider_set(&prov, pool, closed);
+    hc::user_set_override(&mut user, over);
+    let prov = if alive {
+        Some(prov)
+    } else {
+        drop(prov);
+        None
+    };
+
+    let res = hc::try_request(&user, req);
+    match (&res, &prov) {
+        (Err(SendError::ChMux), None) => kani::cover!(true, "dead dispatcher reported as ChMux"),
+        (_, None) => panic!("dropped provider must yield SendError::ChMux"),
+        (res, Some(prov)) => {
+            let (pool2, closed2, _) = hc::provider_state(prov);
+            assert!(closed2 == closed);
+            match (res, ref_closed_error(closed, over)) {
+                (Err(SendError::Closed { gracefully }), Some(g)) => {
+                    assert!(*gracefully == g);
+                    assert!(pool2 == pool);
+                    kani::cover!(g, "graceful close reported");
+                    kani::cover!(!g, "non-graceful close reported");
+                }
+                (Ok(Some(a)), None) => {
+                    assert!(pool >= req);
+                    assert!(hc::assigned_available(a) == req);
+                    assert!(pool2 == pool - req);
+                    kani::cover!(closed == Some(true), "override lets a gracefully closed pool grant");
+                }
+                (Ok(None), None) => {
+                    assert!(pool < req);
+                    assert!(pool2 == pool);
+                    kani::cover!(true, "shortage reported as None");
+                }
+                _ => panic!("unexpected try_request outcome"),
+            }
+        }
+    }
+    std::mem::forget((prov, user, res));
+}
+
+/// @prop C02 C03 C06 C11
+/// @tier quick
+/// @fn chmux::credit::CreditUser::request
+/// @fn chmux::credit::CreditProvider::provide
+/// @bounds pool, req, min_req (1 <= min_req <= req), later grant: full u32; closed/override: any; provider alive or dropped; two polls
+/// ready path: grants min(pool, req) >= min_req and deducts exactly that; shortage: Pending with one waiter registered under the same lock acquisition; after the peer grants enough, the next poll completes (no lost wake-up); closed/dead pools error on the first poll, never Pending
+#[kani::proof]
+#[kani::unwind(3)]
+#[kani::stub(alloc::fmt::format, empty_format)]
+fn c02_request_poll_paths() {
+    let pool: u32 = kani::any();
+    let req: u32 = kani::any();
+    let min_req: u32 = kani::any();
+    let closed: Option<bool> = kani::any();
+    let over: bool = kani::any();
+    let alive: bool = kani::any();
+    let grant: u32 = kani::any();
+    kani::assume(min_req >= 1 && min_req <= req);
+    let (prov, mut user) = hc::send_pair(0);
+    hc::provider_set(&prov, pool, closed);
+    hc::user_set_override(&mut user, over);
+    let prov = if alive {
+        Some(prov)
+    } else {
+        drop(prov);
+        None
+    };
+
+    let mut fut = Slot::new(hc::request(&user, req, min_req));
+    let first = fut.poll();
+    match &prov {
+        None => {
+            assert!(matches!(first, Poll::Ready(Err(SendError::ChMux))));
+            kani::cover!(true, "dead dispatcher: Ready(Err(ChMux)), not Pending");
+        }
+        Some(prov) => {
+            let (pool2, _, waiting2) = hc::provider_state(prov);
+            match (first, ref_closed_error(closed, over)) {
+                (Poll::Ready(Err(SendError::Closed { gracefully })), Some(g)) => {
+                    assert!(gracefully == g);
+                    assert!(pool2 == pool && waiting2 == 0);
+                    kani::cover!(true, "closed pool: Ready(Err(Closed))");
+                }
+                (Poll::Ready(Ok(a)), None) => {
+                    assert!(pool >= min_req);
+                    let got = hc::assigned_available(&a);
+                    assert!(got == if pool < req { pool } else { req });
+                    assert!(got >= min_req && got <= pool);
+                    assert!(pool2 == pool - got);
+                    assert!(waiting2 == 0);
+                    kani::cover!(got < req, "partial grant");
+                    std::mem::forget(a);
+                }
+                (Poll::Pending, None) => {
+                    assert!(pool < min_req);
+                    assert!(pool2 == pool);
+                    assert!(waiting2 == 1);
+                    // the peer grants credit: waiter is woken and the retry succeeds iff enough arrived
+                    kani::assume((pool as u64) + (grant as u64) <= u32::MAX as u64);
+                    assert!(hc::provide::<Infallible, Infallible>(prov, grant).is_ok());
+                    let second = fut.poll();
+                    let (pool3, _, waiting3) = hc::provider_state(prov);
+                    if pool + grant >= min_req {
+                        match second {
+                            Poll::Ready(Ok(a)) => {
+                                let got = hc::assigned_available(&a);
+                                assert!(got >= min_req && got <= req);
+                                assert!(pool3 == pool + grant - got);
+                                assert!(waiting3 == 0);
+                                kani::cover!(true, "woken request completes");
+                                std::mem::forget(a);
+                            }
+                            _ => panic!("request must complete once enough credit was granted"),
+                        }
+                    } else {
+                        assert!(second.is_pending());
+                        assert!(waiting3 == 1);
+                        kani::cover!(true, "still short: waits again with a fresh waiter");
+                    }
+                }
+                _ => panic!("unexpected request outcome"),
+            }
+        }
+    }
+    std::mem::forget((prov, user));
+}
+
+/// @prop C02 C03
+/// @tier quick
+/// @fn chmux::credit::AssignedCredits::take
+/// @fn chmux::credit::AssignedCredits::drop
+/// @bounds pool, assigned n, taken k (k <= n): full u32 with pool + n <= u32::MAX (conservation: pool + assigned <= advertised buffer)
+/// assigned -> wire / -> pool: take(k) leaves n-k; dropping returns exactly the unused n-k to the pool (none if the dispatcher is gone); nothing is created or lost
+#[kani::proof]
+#[kani::unwind(2)]
+fn c02_assigned_take_and_drop() {
+    let pool: u32 = kani::any();
+    let n: u32 = kani::any();
+    let k: u32 = kani::any();
+    let alive: bool = kani::any();
+    kani::assume(n >= 1 && k <= n);
+    kani::assume((pool as u64) + (n as u64) <= u32::MAX as u64);
+    let (prov, user) = hc::send_pair(0);
+    hc::provider_set(&prov, pool + n, None);
+    let mut a = match hc::try_request(&user, n) {
+        Ok(Some(a)) => a,
+        _ => panic!("grant expected"),
+    };
+    assert!(hc::provider_state(&prov).0 == pool);
+    hc::assigned_take(&mut a, k);
+    assert!(hc::assigned_available(&a) == n - k);
+    if alive {
+        drop(a);
+        let (pool2, _, _) = hc::provider_state(&prov);
+        assert!(pool2 == pool + (n - k));
+        kani::cover!(k > 0 && k < n, "partially used credits returned");
+        std::mem::forget(prov);
+    } else {
+        drop(prov);
+        drop(a); // must not panic
+        kani::cover!(true, "drop after dispatcher death");
+    }
+    std::mem::forget(user);
 }
